@@ -92,8 +92,8 @@ class TObj(T):
 class TFun(T):
     """pure deterministic callback modelled as an uninterpreted function (A4)"""
 
-    def __init__(self, args, ret, fname):
-        self.args, self.ret, self.fname = tuple(args), ret, fname
+    def __init__(self, args, ret, fname, pure=True):
+        self.args, self.ret, self.fname, self.pure = tuple(args), ret, fname, pure
         self.name = f"fun<{fname}>"
 
 
